@@ -94,17 +94,17 @@ def families(tier, seed):
 
 
 def _twin_signed_distance():
-    """mutant: distance(Line, Line) forgets the absolute value"""
-    import sys as _sys
-    ds = _sys.modules['Geometry3D.calc.distance']
-    orig = ds.distance
+    """mutant: distance(Line, Line) loses the absolute value (negative for one orientation of the common normal)"""
+    from .c01 import _wrap_public
 
-    def distance(a, b):
-        if isinstance(a, Line) and isinstance(b, Line) and not ds.parallel(a, b):
-            return (b.sv - a.sv) * a.dv.cross(b.dv).normalized()
-        return orig(a, b)
-    ds.distance = distance
-    G.distance = distance
+    def post(a, b, r):
+        if isinstance(a, Line) and isinstance(b, Line):
+            n = a.dv.cross(b.dv)
+            s = (b.sv - a.sv) * n
+            if not isinstance(s, (int, float, F)) and bool(s < 0) or isinstance(s, (int, float, F)) and s < 0:
+                return -r
+        return r
+    _wrap_public('distance', post)
 
 
 TWINS = {'signed Line-Line distance': (r'^Line-Line/skew/axis/function$', _twin_signed_distance)}
